@@ -1,6 +1,7 @@
 package sim
 
 import (
+	"bytes"
 	"fmt"
 	"regexp"
 	"strconv"
@@ -34,7 +35,15 @@ func (c19) Gen(seed uint64, idx int, tier string) *Scenario {
 	sc.Class = class
 	cfg.Safe = class != "runtime-error"
 	cfg.NoNL = true
+	if r.Chance(1, 6) {
+		cfg.LongTail = true // strings and identifiers of 94..5000 bytes
+		cfg.LongSizes = []int{63, 64, 65, 94, 97, 240, 241, 300, 1000, 4097}
+	}
 	p := gen.Generate(r, cfg)
+	if class == "valid" && r.Chance(1, 5) {
+		// many locals: slot numbers and POPN counts that need multi-byte operands
+		p = manyLocals(r, cfg)
+	}
 	switch class {
 	case "runtime-error":
 		gen.AddPlant(r, p, prng.Pick(r, gen.RuntimePlants), cfg)
@@ -46,7 +55,7 @@ func (c19) Gen(seed uint64, idx int, tier string) *Scenario {
 	case "soup":
 		sc.Src = gen.TokenSoup(r, r.Range(1, 40))
 	default:
-		if r.Chance(1, 4) {
+		if r.Chance(1, 4) && len(p.Toks) > 0 {
 			gen.AddPlant(r, p, "warn.rebind", cfg)
 		}
 		sc.Src = p.Src
@@ -69,6 +78,28 @@ func (c19) Gen(seed uint64, idx int, tier string) *Scenario {
 		sc.Bias = prng.Pick(r, Biases)
 	}
 	return sc
+}
+
+// manyLocals builds a program with 236..330 live variables that are read,
+// assigned and popped, so that slot operands cross the 1-byte varint range.
+func manyLocals(r *prng.R, cfg gen.Cfg) *gen.Prog {
+	n := r.Range(236, 330)
+	var sb strings.Builder
+	inBlock := r.Chance(1, 2)
+	if inBlock {
+		sb.WriteString("def t {\n")
+	}
+	for i := 0; i < n; i++ {
+		fmt.Fprintf(&sb, "var v%d = %d\n", i, i)
+	}
+	for k := 0; k < 6; k++ {
+		a, b := r.Intn(n), n-1-r.Intn(12)
+		fmt.Fprintf(&sb, "print v%d + v%d\neval v%d = v%d * 2\n", a, b, b, a)
+	}
+	if inBlock {
+		fmt.Fprintf(&sb, "f = v%d\n}\n", n-1)
+	}
+	return &gen.Prog{Src: []byte(sb.String())}
 }
 
 var (
@@ -105,6 +136,7 @@ func programLines(out string) (prog []string, instr [][]string, stacks int, stat
 
 type optRun struct {
 	parseOut, execOut, log string
+	execOutB, execLogB     string // what reached the writers given to Execute only
 	blocks, binding, err   string
 	parseErr               string
 	panicText              string
@@ -133,13 +165,18 @@ func (c19) Run(t *testing.T, sc *Scenario) *Outcome {
 		if d, e1, e2 := DumpProg(mem.Prog); e1 == "" && e2 == "" {
 			r.dump = d
 		}
-		ex := Exec(mem.Prog, mem.OutBuf, mem.LogBuf, opt)
+		// Execute is given writers of its own: the program's lines and warnings belong to the
+		// writers the Prog was created with, whatever the options
+		var outB, logB bytes.Buffer
+		o0, l0 := mem.OutBuf.Len(), mem.LogBuf.Len()
+		ex := Exec(mem.Prog, &outB, &logB, opt)
 		if ex.Panic != "" {
 			r.panicText = "Execute: " + ex.Panic
 			continue
 		}
-		r.execOut, r.blocks, r.binding, r.err = ex.Out, ex.Blocks, ex.Binding, ex.Err
-		r.log += ex.Log
+		r.execOut, r.blocks, r.binding, r.err = mem.OutBuf.String()[o0:], ex.Blocks, ex.Binding, ex.Err
+		r.log += mem.LogBuf.String()[l0:]
+		r.execOutB, r.execLogB = ex.Out, ex.Log
 	}
 	base := runs[0]
 	if base.panicText != "" {
@@ -177,6 +214,18 @@ func (c19) Run(t *testing.T, sc *Scenario) *Outcome {
 			continue
 		}
 		prog, instr, stacks, stats := programLines(r.execOut)
+		progB, instrB, stacksB, statsB := programLines(r.execOutB)
+		if len(progB) > 0 || r.execLogB != base.execLogB {
+			o.viol("C19", "output-changed", "program output moves to another writer under options",
+				fmt.Sprintf("with %s the writers given to Execute received %q / %q (without options: %q / %q)", name, short(strings.Join(progB, "|"), 200), short(r.execLogB, 200), short(base.execOutB, 100), short(base.execLogB, 100)), withOpt(opt))
+			continue
+		}
+		// listing, trace and statistics may go to either configured output writer
+		instr = append(instr, instrB...)
+		stacks += stacksB
+		for k, v := range statsB {
+			stats[k] = v
+		}
 		if strings.Join(prog, "\n") != strings.Join(baseProg, "\n") {
 			o.viol("C19", "output-changed", "program lines differ under options",
 				fmt.Sprintf("with %s the printed lines are %q, without options %q", name, short(strings.Join(prog, "|"), 300), short(strings.Join(baseProg, "|"), 300)), withOpt(opt))
